@@ -118,7 +118,7 @@ func (o *opener) Open() (store.FileReader, error) {
 
 // GetPieceReader returns a reader for piece pi.
 func (t *Torrent) GetPieceReader(pi int) (storage.PieceReader, error) {
-	if pi >= t.NumPieces() {
+	if pi < 0 || pi >= t.NumPieces() {
 		return nil, fmt.Errorf("invalid piece index %d: num pieces = %d", pi, t.NumPieces())
 	}
 	return piecereader.NewFileReader(t.getFileOffset(pi), t.PieceLength(pi), &opener{t}), nil
